@@ -37,14 +37,18 @@ func DetectDeviceConfigChanges(ctx context.Context) <-chan bool {
 		}
 
 		for event := range watcher.Events {
-			if event.Op != fsnotify.Write {
+			if event.Op&fsnotify.Write == 0 {
 				continue
 			}
 
 			name := strings.ToLower(event.Name)
-			if strings.HasSuffix(name, "toml") {
+			if strings.HasSuffix(name, ".toml") {
 				log.Info(fmt.Sprintf("config change detected: %s", event.Name), logger.Info)
-				change <- true
+				select {
+				case change <- true:
+				case <-ctx.Done():
+					return
+				}
 			}
 		}
 	}()
